@@ -2,7 +2,7 @@
   C11, decoder image invariant, part 2: the lexer on ARBITRARY input.  Every token `Lexer::read` returns is an
   identifier, a scalar value of the reader's shape (`decV`), a punctuation byte or the end marker.
 -/
-import Hs.Lemmas.ZincImageIds
+import Hs.Lemmas.ZincImageLeaf
 import Hs.Lemmas.ZincImageBase
 namespace Hs.Zinc
 open Hs Hs.Scan
@@ -59,6 +59,8 @@ theorem parseNumberDateTime_img (f : Nat) (s : Scan) (v : Val) (s' : Scan)
     | exact parseNumber_img _ _ _ _ h
     | exact parseNegInf_img _ _ _ h
     | exact parseDateTime_img _ _ _ _ h
+    | (have hd := parseDate_img _ _ _ ‹parseDate _ = Res.ok _›
+       simp only [Res.ok.injEq, Prod.mk.injEq] at h; rw [← h.1]; exact ⟨rfl, hd⟩)
     | (simp only [Res.ok.injEq, Prod.mk.injEq] at h; rw [← h.1]; exact ⟨rfl, rfl⟩)
 
 /-! ### keywords, Coord, XStr -/
@@ -73,10 +75,33 @@ theorem keyword_img (lit : List Char) (v : Val) (h : keyword lit = some v) : Sca
 theorem parseCoordBody_img (f : Nat) (s : Scan) (v : Val) (s' : Scan) (h : parseCoordBody f s = .ok (v, s')) :
     Scalar v = true ∧ decV v = true := by
   unfold parseCoordBody at h
-  repeat' (first | split at h | simp only [] at h)
-  all_goals first
-    | (simp at h; done)
-    | (simp only [Res.ok.injEq, Prod.mk.injEq] at h; rw [← h.1]; exact ⟨rfl, by simp [decV, mkCoordFlt]⟩)
+  split at h
+  · simp at h
+  · split at h
+    · split at h
+      · rename_i lat s2 hlat
+        split at h
+        · split at h
+          · simp at h
+          · split at h
+            · split at h
+              · rename_i lng s5 hlng
+                split at h
+                · split at h
+                  · simp at h
+                  · simp only [Res.ok.injEq, Prod.mk.injEq] at h
+                    rw [← h.1]
+                    have h1 := decTextOk_of_bytes _ (parseDecimal_img _ _ _ _ hlat)
+                    have h2 := decTextOk_of_bytes _ (parseDecimal_img _ _ _ _ hlng)
+                    refine ⟨rfl, ?_⟩
+                    simp only [mkCoordFlt] at h1 h2 ⊢
+                    simp [decV, h1, h2]
+                all_goals simp at h
+              all_goals simp at h
+            all_goals simp at h
+        all_goals simp at h
+      all_goals simp at h
+    all_goals simp at h
 
 theorem parseXStrBody_img (f : Nat) (name : List Char) (s : Scan) (v : Val) (s' : Scan)
     (h : parseXStrBody f name s = .ok (v, s')) : ∃ x, v = .xstr name x := by
